@@ -216,4 +216,4 @@ def main(tier=None, replay=None):
                        'no two entries write the same array cell (the statement defines no precedence)', 'values are multiples of 1/8 (exact in floating point)',
                        'the SDF/Verilog renderers of the harness (trusted); TLC, JSON reader, projection']
     return ck.finish('seeded random modules (parsed from rendered Verilog, both branchforks settings, three libraries) x abstract SDF entry lists x random '
-                     'groupings into CELL blocks; whole-array comparison; distinct by (verilog text, sdf text)')
+                     'groupings into CELL blocks; entries naming unconnected pins and fan-out stems, circuits after fork elimination; whole-array comparison; distinct by (verilog text, sdf text)')
